@@ -218,7 +218,7 @@ def r_kernel_call_typestates(ctx, rules=('R15.1', 'R16.2', 'R18.4'), only_funcs:
                         obs.append(violation(r_ne, t, f.loc(call), key=f"{_fn(f)}::{kname}::edge-{role}", detail=ast.unparse(a)))
                 if role == 'RI' and r_mrts:
                     t = f"{f.name}: RI argument of kernel `{kname}` is the RI returned by resolve_keywords"
-                    good = isinstance(a, ast.Name) and a.id == 'RI'
+                    good = isinstance(a, ast.Name) and _keyword_locals(wm, f).get(a.id) == 'RI'
                     if good:
                         obs.append(ok(r_mrts, t, f.loc(call), construct=f"{_fn(f)}::{kname}::RI"))
                     else:
@@ -308,6 +308,19 @@ def _norm_arg(a: ast.AST, ren: Dict[str, str]) -> str:
     return ast.unparse(a2)
 
 
+def _keyword_locals(wm: WrapperModel, f: FuncInfo) -> Dict[str, str]:
+    """locals holding the resolved keywords: `<a>, <b> = resolve_keywords(**kwargs)` -> {a: 'MRTS', b: 'RI'}"""
+    out: Dict[str, str] = {}
+    for n in ast.walk(f.node):
+        if isinstance(n, ast.Assign) and isinstance(n.value, ast.Call) and isinstance(n.targets[0], ast.Tuple) and \
+                len(n.targets[0].elts) == 2 and all(isinstance(e, ast.Name) for e in n.targets[0].elts):
+            tg = wm.callees(f, n.value)
+            if tg and tg[0][0].name == 'resolve_keywords':
+                out[n.targets[0].elts[0].id] = 'MRTS'
+                out[n.targets[0].elts[1].id] = 'RI'
+    return out
+
+
 def _inline_train_locals(f: FuncInfo, a: ast.AST) -> ast.AST:
     """replace locals bound once to `<list>[...]` by that expression (st_i = spike_trains[indices[i]])"""
     defs: Dict[str, ast.AST] = {}
@@ -364,6 +377,8 @@ def r05_1_route_identity(ctx, rule: str = 'R05.1') -> List[Ob]:
             wt = [a.arg for a in fam.wrapper.node.args.args if a.arg in wm.train_params.get(fam.wrapper.qual, set())]
             ren_c = {n: f"T{k + 1}" for k, n in enumerate(tps_list)}
             ren_p = {n: f"T{k + 1}" for k, n in enumerate(wt)}
+            ren_c.update(_keyword_locals(wm, f))
+            ren_p.update(_keyword_locals(wm, fam.wrapper))
             ac = _norm_pairwise([_norm_arg(_inline_train_locals(f, a), ren_c) for a in ccalls[0].args])
             ap = _norm_pairwise([_norm_arg(_inline_train_locals(fam.wrapper, a), ren_p) for a in pcalls[0].args])
             if ac == ap:
@@ -591,6 +606,26 @@ def r14_5_keyword_flow(ctx, rule: str = 'R14.5') -> List[Ob]:
     obs: List[Ob] = []
     tracked = ('interval', 'max_tau', 'indices', 'normalize')
     kw_tracked = ('MRTS', 'RI')
+    # tracked keyword parameters are never rewritten on the way (except the documented normalisations)
+    for f in wm.funcs:
+        fparams0 = [a.arg for a in f.node.args.args]
+        for p in [x for x in fparams0 if x in ('interval', 'max_tau', 'indices', 'normalize')]:
+            for n in ast.walk(f.node):
+                if not (isinstance(n, ast.Assign) and any(isinstance(t_, ast.Name) and t_.id == p for tt in n.targets for t_ in ast.walk(tt))):
+                    continue
+                v = n.value
+                allowed = False
+                if p == 'max_tau' and isinstance(v, ast.Constant) and v.value in (0, 0.0):
+                    allowed = True
+                if p == 'indices' and isinstance(v, ast.Call) and ast.unparse(v.func) in ('np.arange', 'np.array', 'np.asarray', 'list', 'range'):
+                    allowed = True
+                title = (f"{f.name}: keyword parameter `{p}` is passed on as given (only `max_tau: None -> 0.0` and the `indices` "
+                         f"normalisation rewrite a tracked keyword)")
+                if allowed:
+                    obs.append(ok(rule, title, f.loc(n), construct=f"{_fn(f)}::{p}::rebind"))
+                else:
+                    obs.append(violation(rule, title, f.loc(n), key=f"{_fn(f)}::{p}::rewritten::{ast.unparse(v)[:60]}",
+                                         detail=f"`{ast.unparse(n)[:120]}`: this call form now honours `{p}` differently from the others"))
     for f in wm.funcs:
         fparams = [a.arg for a in f.node.args.args]
         in_scope = [p for p in fparams if p in tracked]
